@@ -181,6 +181,11 @@ func reNullable(r *RE) bool {
 	}
 }
 
+// reWrapAlts makes String put every alternative in a capture group (for Go only:
+// it switches off regexp/syntax's alternation factoring; group numbers change, so
+// only spans are compared with that rendering).
+var reWrapAlts bool
+
 func (r *RE) String() string {
 	if r.Quant {
 		var q string
@@ -239,7 +244,11 @@ func (r *RE) String() string {
 	case "alt":
 		parts := []string{}
 		for _, k := range r.Kids {
-			parts = append(parts, k.String())
+			if reWrapAlts {
+				parts = append(parts, "("+k.String()+")")
+			} else {
+				parts = append(parts, k.String())
+			}
 		}
 		return strings.Join(parts, "|")
 	}
@@ -484,7 +493,16 @@ func TestC14(t *testing.T) {
 			}
 			st.Count("goregex_compared")
 			if !spansEqual(want2, want, false) {
-				t.Fatalf("HARNESS oracle disagreement on spans: /%s/ on %q: model %s go %s", res, text, fmtSpans(want, false), fmtSpans(want2, false))
+				// second opinion with regexp/syntax's alternation factoring switched off
+				reWrapAlts = true
+				gore2 := goRegexSyntax(re.String())
+				reWrapAlts = false
+				want3, err3 := goRegexSpans(gore2, map[int]string{}, text)
+				if err3 != nil || !spansEqual(want3, want, false) {
+					t.Fatalf("HARNESS oracle disagreement on spans: /%s/ on %q: model %s go %s", res, text, fmtSpans(want, false), fmtSpans(want2, false))
+				}
+				st.Count("goregex_factoring_bug_sidestepped")
+				want2 = want // bindings are then taken from the reference matcher only
 			}
 			if !spansEqual(want2, want, true) {
 				// group bindings of repeated groups differ between engine families: not a verdict
